@@ -9,6 +9,6 @@ CONSTANTS
   Overhead = 72
   MaxVers = 1
   MaxMut = 3
-  MaxMoves = 4
+  MaxMoves = 3
 INVARIANTS IterOK SizeOK
 PROPERTIES Persistent
